@@ -49,7 +49,11 @@ package fiber
 //@ ..  forall(i, 0, len(r), r[i] == h[splitLo(h, ".", i):splitHi(h, ".", i)])
 
 // pieceOf(p, v): p is a contiguous, comma-free part of v (one list item of a comma-separated header value, trimmed).
-//@ macro partOf(p, v) = exists(a, 0, len(v) + 1, exists(b, a, len(v) + 1, p == v[a:b]))
+// (round B: the same statement as `exists(a, 0, len(v) + 1, exists(b, a, len(v) + 1, p == v[a:b]))`, with the two quantifiers
+// directly nested: the solvers merge them into ONE quantifier over (a, b) whose body contains the trigger v[a:b]; with the
+// bounds of `a` between the two quantifiers the outer one has no trigger at all and the verdict of
+// extractIPsFromHeader/inv:loop1.preserve:found-pieces-of-the-header depended on the numbering of the fresh names)
+//@ macro partOf(p, v) = existsI(a, existsI(b, 0 <= a && a <= b && b <= len(v) && p == v[a:b]))
 //@ macro pieceOf(p, v) = partOf(p, v) && forall(m, 0, len(p), p[m] != ',')
 
 // ---------------------------------------------------------------------------------------------
